@@ -370,7 +370,7 @@ def check_C06(tier, seed):
     records, table = tables.sweep_c06(tier, seed)
     viol, r = tables.judge(records)
     _table_report(v, records, viol, {"C06"},
-                  ["kind", "state", "call", "algo", "sumcase", "sizecase", "cls", "objBefore", "objAfter"])
+                  ["kind", "state", "call", "algo", "sumcase", "sizecase", "add", "cls", "objBefore", "objAfter"])
     v.coverage["verdict_product_records"] = len(records)
     v.coverage["samples"].append(records[0])
     v.coverage["checker_cmd"] += " ; tlc TraceTables (I_C06_Valid, I_C06_Invalid)"
@@ -437,6 +437,8 @@ def check_C19(tier, seed):
                        "checker_cmd": "tlc MCContract (I_C19_Converge) ; tlc TraceConverge"})
     v.assumptions.append("validation data: none / correct / wrong checksum / wrong size under SHA-256; "
                          "non-default algorithms and letter case are swept by the C06 table check")
+    # the step-wise way is three calls: other clients' calls can fall between them
+    _conc_pass(v, tier, ["C07"], {"C19"})
     return v.finish()
 
 
@@ -534,6 +536,10 @@ def check_C20(tier, seed):
                     "content": c["content"],
                     "cli": "raised:" + str(rec["cli"]["err"]) if rec["cli"]["raised"] else "ok",
                     "api": "raised:" + str(rec["api"]["err"]) if rec["api"]["raised"] else "ok"}
+        elif rec["kind"] == "chs":
+            desc = {"clause": name, "verb": "createstore", "existing_store": rec["made"],
+                    "differs": rec["differs"], "cli_raised": rec["cli"]["raised"],
+                    "api_raised": rec["api"]["raised"]}
         else:
             desc = {"clause": name, "config": rec["config"], "why": rec["why"]}
         v.violation(desc, {"kind": "client", "clause": name, "record": rec,
